@@ -23,11 +23,7 @@ Proof. exact total_merge_add. Qed.
 Theorem C31_reduce_preserves_totals : forall sp bs l k t, expand sp bs = Ok l -> 0 <= k ->
   total (reduce_abs k l) t = sumc (filter (fun b => target_idx (fst b) k =? t) l) /\
   increasing (reduce_abs k l).
-Proof.
-  intros sp bs l k t H Hk. pose proof (expand_increasing _ _ _ H) as Hi. split.
-  - rewrite reduce_total by assumption. apply total_retarget.
-  - apply reduce_increasing; assumption.
-Qed.
+Proof. exact p_reduce_preserves_totals. Qed.
 
 (* Compact(maxEmptyBuckets = k) never changes the total of any bucket, whatever k; and with
    k = 0 no empty bucket is left. *)
@@ -47,11 +43,7 @@ Theorem C31_to_float_preserves : forall h,
      abs_of_raw f = abs_of_raw (mkRF (i_hint h) (i_schema h) (i_zt h) (i_zc h) (i_cnt h) (i_sum h)
                                      (i_ps h) (cumsum (i_pd h)) (i_ns h) (cumsum (i_nd h)) [])) /\
   (is_custom (i_schema h) = true -> r_cv f = i_cv h /\ r_ns f = [] /\ r_nb f = [] /\ r_zc f = 0).
-Proof.
-  intro h. unfold to_float. destruct (is_custom (i_schema h)) eqn:E; cbn;
-    unfold cumsum; rewrite ?deltas_cumsum; repeat split; try reflexivity; try discriminate;
-    intros; try discriminate; repeat split; rewrite ?deltas_cumsum; reflexivity.
-Qed.
+Proof. exact p_to_float_preserves. Qed.
 
 (* detectReset on the two aligned bucket sequences reports a reset exactly when some bucket of
    the previous histogram is populated and missing now, or has a smaller count now. *)
@@ -59,27 +51,13 @@ Theorem C31_detect_buckets_iff : forall prev cur, increasing prev -> increasing 
   (dr_lists prev cur = true <->
    exists p, In p prev /\
      match find_idx (fst p) cur with None => snd p <> 0 | Some c => c < snd p end).
-Proof.
-  intros prev cur Hp Hc. rewrite (dr_lists_spec prev cur Hp Hc), existsb_exists.
-  split; intros [p [Hin Hb]]; exists p; (split; [exact Hin|]); unfold bad in *;
-    destruct (find_idx (fst p) cur).
-  - apply Z.ltb_lt. exact Hb.
-  - unfold nonzero in Hb. apply negb_true_iff, Z.eqb_neq in Hb. exact Hb.
-  - apply Z.ltb_lt. exact Hb.
-  - unfold nonzero. apply negb_true_iff, Z.eqb_neq. exact Hb.
-Qed.
+Proof. exact p_detect_buckets_iff. Qed.
 
 (* ... which for non-negative counts is: some bucket count decreased. *)
 Theorem C31_detect_buckets_decreased : forall prev cur, increasing prev -> increasing cur ->
   Forall (fun p => 0 <= snd p) prev ->
   (dr_lists prev cur = true <-> exists p, In p prev /\ total cur (fst p) < snd p).
-Proof.
-  intros prev cur Hp Hc Hnn. rewrite (dr_lists_spec prev cur Hp Hc), existsb_exists.
-  rewrite Forall_forall in Hnn.
-  split; intros [p [Hin Hb]]; exists p; (split; [exact Hin|]).
-  - rewrite (bad_decreased cur p Hc (Hnn p Hin)), orb_false_r in Hb. apply Z.ltb_lt. exact Hb.
-  - rewrite (bad_decreased cur p Hc (Hnn p Hin)), orb_false_r. apply Z.ltb_lt. exact Hb.
-Qed.
+Proof. exact p_detect_buckets_decreased. Qed.
 
 (* Custom buckets with different bounds: every bucket t of the intersected layout holds the
    sum (difference) of the two operands mapped onto that layout, and every source bucket is
@@ -92,6 +70,37 @@ Proof. exact add_mism_total. Qed.
 Theorem C31_custom_mapping_in_range : forall inter bounds idx,
   0 <= map_idx inter bounds idx <= Z.of_nat (length inter).
 Proof. exact map_idx_range. Qed.
+
+(* Add / Sub / KahanAdd on two custom-bucket histograms: with equal bounds the bucket map is the
+   bucket-wise sum/difference; with different bounds the result lives on the intersection of the
+   bounds (exactly the bounds present in both) and every bucket of that layout holds the
+   sum/difference of the operands' buckets mapped onto it (first bound >= the source bound,
+   else the +Inf bucket: C31_custom_target_bucket). *)
+Theorem C31_add_sub_custom : forall sgn h o,
+  is_custom (schema h) = true -> is_custom (schema o) = true ->
+  idx_nonneg (pos h) = true -> idx_nonneg (pos o) = true ->
+  exists r, arith sgn h o = Ok r /\
+    let R := ao_h r in
+    schema R = schema h /\ cnt R = cnt h + sgn * cnt o /\ sum R = sum h + sgn * sum o /\
+    zc R = zc h /\ zt R = zt h /\
+    (list_eqb (cv h) (cv o) = true ->
+       ao_reconciled r = false /\ cv R = cv h /\
+       forall t, total (pos R) t = total (pos h) t + sgn * total (pos o) t) /\
+    (list_eqb (cv h) (cv o) = false ->
+       ao_reconciled r = true /\ cv R = intersect (cv h) (cv o) /\
+       forall t, 0 <= t <= Z.of_nat (length (cv R)) ->
+         total (pos R) t = total (remap (cv R) (cv h) (pos h)) t +
+                           sgn * total (remap (cv R) (cv o) (pos o)) t).
+Proof. exact arith_custom. Qed.
+Theorem C31_custom_bounds_intersection : forall a b lo z, zinc lo a -> zinc lo b ->
+  (In z (intersect a b) <-> In z a /\ In z b).
+Proof. exact intersect_spec. Qed.
+Theorem C31_custom_target_bucket : forall inter x p,
+  (forall r, find_ge inter x p = Some r ->
+     exists pre y post, inter = pre ++ y :: post /\ r = p + Z.of_nat (length pre) /\ x <= y /\
+                        Forall (fun z => z < x) pre) /\
+  (find_ge inter x p = None -> Forall (fun z => z < x) inter).
+Proof. intros inter x p. split; [intro r; apply find_ge_some|apply find_ge_none]. Qed.
 
 (* zeroCountForLargerThreshold (slow path, T above the histogram's own threshold): the
    returned threshold T' is >= T, cuts through no populated bucket, differs from T only if T
@@ -199,20 +208,7 @@ Theorem C31_detect_reset_hint_and_type : forall c p,
    (is_custom (schema c) = true /\ is_custom (schema p) = false) \/
    (is_exp (schema c) = true /\ is_custom (schema p) = true) ->
    detect_reset c p = Ok true).
-Proof.
-  intros c p. unfold detect_reset. repeat split.
-  - intros ->. reflexivity.
-  - intros ->. reflexivity.
-  - intros H1 H2 Hc Hx.
-    replace (hint c =? 1) with false by (symmetry; apply Z.eqb_neq; exact H1).
-    replace (hint c =? 2) with false by (symmetry; apply Z.eqb_neq; exact H2).
-    replace (cnt c <? cnt p) with false by (symmetry; apply Z.ltb_ge; exact Hc).
-    destruct Hx as [[E1 E2]|[E1 E2]].
-    + rewrite E1, E2. reflexivity.
-    + destruct (is_exp_facts _ E1) as (C1 & L1 & U1). rewrite C1. cbn [andb].
-      unfold is_custom, customSchema in E2. apply Z.eqb_eq in E2.
-      replace (schema p <? schema c) with true by (symmetry; apply Z.ltb_lt; lia). reflexivity.
-Qed.
+Proof. exact p_detect_reset_hint_and_type. Qed.
 
 (* Finding 1: when `other` has the higher resolution and the common zero threshold is not a
    bucket boundary of the receiver's schema, buckets of `other` that were added to the zero
@@ -257,6 +253,12 @@ Example C31_nonvacuous_detect_partial :
   detect_reset (mkH 0 0 (TC 512) 9 23 0 [(2, 5)] [] []) e_h = Ok true /\
   no_double_count e_h 0 (TC 512).
 Proof. repeat split; try (vm_compute; reflexivity). apply (ndc_threshold_on_grid e_h 0 1); cbn; lia. Qed.
+
+Example C31_nonvacuous_custom :
+  exists r, arith 1 (mkH 0 (-53) T0 0 9 0 [(0, 2); (1, 3); (3, 4)] [] [1; 2; 5])
+                    (mkH 0 (-53) T0 0 6 0 [(0, 1); (2, 5)] [] [2; 5; 7]) = Ok r /\
+            cv (ao_h r) = [2; 5] /\ pos (ao_h r) = [(0, 6); (2, 9)] /\ ao_reconciled r = true.
+Proof. eexists. vm_compute. repeat split. Qed.
 
 (* non-vacuity *)
 Example C31_nonvacuous_expand :
